@@ -376,6 +376,26 @@ def one_preemption_cases(base_case, run_case, max_cases=900):
     return cases
 
 
+def two_preemption_cases(base_case, run_case, max_cases=40000):
+    """All schedules with at most two forced switches (thorough tier, tiniest
+    workloads only): for every one-switch schedule the decisions after the
+    switch are enumerated again."""
+    first = one_preemption_cases(base_case, run_case, max_cases)
+    cases = list(first)
+    for k in first[1:]:
+        (i, c), = k['sched']['choices']
+        res = run_case(k)
+        d = res['stats']['decisions']
+        for j in range(i + 1, d):
+            for c2 in range(3):
+                k2 = json.loads(json.dumps(k))
+                k2['sched']['choices'] = [[i, c], [j, c2]]
+                cases.append(k2)
+                if len(cases) >= max_cases:
+                    return cases
+    return cases
+
+
 TINY = [
     # (n, stages after map u0)
     (2, [{'op': 'prefetch', 'w': 1, 'b': 1, 'backend': 't'}]),
